@@ -36,6 +36,9 @@ type c23Case struct {
 	// FragBytes > 0: every call is sent as a record of fragments of that many bytes (a client may fragment as it likes;
 	// a WRITE of wtmax in 256 KiB fragments is still one record within the record limit)
 	FragBytes int `json:"frag_bytes,omitempty"`
+	// OtherTS > 0: a second, unrelated export with this TransferSize is created in the same process after the one under
+	// test (and retuned once more); exports do not share limits
+	OtherTS int `json:"other_transfer_size,omitempty"`
 }
 
 var c23Sizes = []int{1, 7, 512, 4096, 65536, 100000, 1 << 20, 1 << 22, 0}
@@ -49,6 +52,9 @@ func genC23(t *rapid.T) c23Case {
 	c.Sel = rapid.SliceOfN(rapid.IntRange(0, 30), 3, 10).Draw(t, "sel")
 	if rapid.IntRange(0, 2).Draw(t, "shrink") == 0 {
 		c.ShrinkDuring = pick(t, "shrink_to", 1, 7, 512, 4096, 65536)
+	}
+	if rapid.IntRange(0, 2).Draw(t, "other") == 0 {
+		c.OtherTS = pick(t, "other_ts", 1, 512, 4096, 65536, 1<<20)
 	}
 	if rapid.Bool().Draw(t, "fragmented") {
 		c.FragBytes = pick(t, "frag_bytes", 100, 4096, 65536, 262144, 524288, 1000000)
@@ -118,6 +124,14 @@ func runC23(tb stat.TB, c c23Case) {
 		tb.Fatalf("harness: %v", err)
 	}
 	defer n.Close()
+	if c.OtherTS > 0 {
+		other, err := absnfs.New(vfs.New(), absnfs.ExportOptions{TransferSize: c.OtherTS, MaxWorkers: 1})
+		if err != nil {
+			tb.Fatalf("harness: second export: %v", err)
+		}
+		defer other.Close()
+		other.UpdateTuningOptions(func(o *absnfs.TuningOptions) { o.TransferSize = c.OtherTS })
+	}
 	srv, err := absnfs.NewServer(absnfs.ServerOptions{Port: 0, Hostname: "127.0.0.1", UseRecordMarking: true})
 	if err != nil {
 		tb.Fatalf("harness: %v", err)
